@@ -156,7 +156,7 @@ def step (_ : Unit) (ts : List String) : Unit × String :=
             | some cq =>
               -- either join order of a hop is a statement of the model (`trVariantL` takes the direction choice as a parameter; on a hop with
               -- LIMIT and no ORDER BY the optimised model statement carries the LIMIT on the frame as well: limit pushdown)
-              let cands := fun (fast : Bool) => [C02.trVariantL (fun _ => false) (fun _ => false) (fun _ => false) fast km cq, C02.trVariantL (fun _ => true) (fun _ => true) (fun _ => true) fast km cq].filterMap id
+              let cands := fun (fast : Bool) => [C02.withCross (fun _ => false) fast (C02.withStages (C02.trVariantL (fun _ => false) (fun _ => false) (fun _ => false) fast)) km cq, C02.withCross (fun _ => true) fast (C02.withStages (C02.trVariantL (fun _ => true) (fun _ => true) (fun _ => true) fast)) km cq].filterMap id
               match cands true, cands false with
               | [], _ => ""
               | _, [] => ""
